@@ -202,6 +202,13 @@ theorem invL_prod {c : Cfg} {s s' : St} (hn : InvN s) (h : InvLs c s) (hs : step
         | exact invL_append h _ (Or.inr rfl) (by assumption)
         | exact invL_requeue h (h22 true (by assumption)))
 
+theorem same_prod_log {c : Cfg} {s s' : St} (hs : stepProd c s = some s') : s'.log = s.log := by
+  simp only [stepProd] at hs
+  repeat' split at hs
+  all_goals first
+    | contradiction
+    | (cases hs; simp)
+
 theorem same_main {c : Cfg} {s s' : St} (hs : stepMain c s = some s') : s'.items = s.items ∧ s'.log = s.log := by
   simp only [stepMain, mainLoop, shutdown, shutProd, awaitProd] at hs
   repeat' split at hs
